@@ -370,7 +370,9 @@ fn check_case(case: &Value, rec: &RecSpec, idx: usize) -> Option<Value> {
     let toks: Vec<&str> = exp.as_array().unwrap().iter().map(|t| t.as_str().unwrap()).collect();
     let huge = toks.contains(&"<HUGE>");
     let expects_error = toks.contains(&"<ERR>");
-    match run_pattern(&pattern, rec, vec![], huge, idx % 3 == 1) {
+    // the sink accepts a prefix per write call for every fourth case
+    let accept = if idx % 4 == 3 { vec![1, 5, 2] } else { vec![] };
+    match run_pattern(&pattern, rec, accept, huge, idx % 3 == 1) {
         Outcome::PanicNew(p) => Some(json!({"what": "PatternEncoder::new panicked", "error": p})),
         Outcome::PanicEncode(p) => Some(json!({"what": "encode panicked", "error": p})),
         Outcome::Constructed => None,
